@@ -62,6 +62,22 @@ def to_smt2(ob, lemma_names=(), extra=()):
         s.add(f)
     for f in extra:
         s.add(f)
+    # distinct opaque string literals denote distinct strings
+    from . import sym as _sym
+    lits = [c for n_, c in _sym.LITERALS.items()]
+    used = [c for c in lits if c.decl().name() in decl_names(fs)]
+    if len(used) > 1:
+        s.add(z3.Distinct(*used))
+    if used:
+        e_ = _sym.LITERALS.get('')
+        for c in used:
+            # pstr_len of a literal is its length; "x in x"; containment of literals is decided concretely
+            s.add(_sym.PLEN(c) == len(next(k for k, v in _sym.LITERALS.items() if v.eq(c))))
+        for c1 in used:
+            for c2 in used:
+                k1 = next(k for k, v in _sym.LITERALS.items() if v.eq(c1))
+                k2 = next(k for k, v in _sym.LITERALS.items() if v.eq(c2))
+                s.add(_sym.PCONTAINS(c1, c2) == (k2 in k1))
     for a in ob.assumptions:
         s.add(a)
     if ob.expect == 'unsat':
